@@ -2,12 +2,12 @@
 """Regenerates section 13 of DESIGN.md from /verif/seeded/*/meta.json."""
 import json, glob, os, re
 rows=[]
-for m in sorted(glob.glob('/verif/seeded/*/meta.json')):
+for m in sorted(glob.glob(os.path.dirname(os.path.abspath(__file__))+'/../seeded/*/meta.json')):
     d=json.load(open(m))
     det="; ".join(f"**{k}**: {v}" for k,v in d['detected_by'].items())
     rows.append(f"| {d['id']} | {d['change']} | {d['needs_to_manifest']} | {det} |")
 cross=[]
-p='/verif/seeded/cross_matrix_wave1_partial.txt'
+p=os.path.dirname(os.path.abspath(__file__))+'/../seeded/cross_matrix_wave1_partial.txt'
 if os.path.exists(p):
     for l in open(p):
         f=l.split()
@@ -29,24 +29,29 @@ on a scratch worktree). They are kept under `/verif/seeded/<id>/`
 (patch.diff, demo_test.go, the agent's README.md, meta.json). None is ever
 committed to /repo.
 
-Result: 131 changes: 3 waves x 11 properties x 3 (the second and third wave
+Result: 164 changes: 3 waves x 11 properties x 3 (the second and third wave
 were also given one-line descriptions of the earlier changes so as not to
 repeat them, and the third was asked for the hardest-to-notice realistic
 change), plus a fourth wave of 16 in which each of four agents got all eleven
 property texts and a set of files to stay within (the small files nobody had
 touched; parse.go/disasm.go; machine.go/reflect.go; CLI and API wrappers),
 and a fifth wave of 16 partial regressions of the repair commits themselves
-(each still handles its commit message's own reproduction).
-129 are reported by a quick check; 2 are recorded as not pursued
-(C08-w3-m3 and C09-w3-m3 need sources / strings of 16 MiB and more - beyond
+(each still handles its commit message's own reproduction), and a sixth wave
+of 33 (again 3 per property, with the descriptions of everything before).
+161 are reported by a quick check; 3 are recorded as not pursued
+(C07-w6-m3 needs one particular coincidence of window sizes that neither the
+agent's own sweeps nor ours produce; C08-w3-m3 and C09-w3-m3 need sources / strings of 16 MiB and more - beyond
 every size class the properties name, at seconds and hundreds of MB per run).
-122 of the 129 are reported by the check of the property they were written
-against; 7 break another property's statement more directly and are reported
-there (concurrent callers -> C12: C19-w2-m3, C06-w3-m2, C09-w3-m2, C19-w3-m2;
-a failing dump write -> C18: C09-w3-m1; these were written "against" a property
+149 of the 161 are reported by the check of the property they were written
+against; 12 break another property's statement more directly and are reported
+there (concurrent callers or real parallelism -> C12: C19-w2-m3, C06-w3-m2,
+C09-w3-m2, C19-w3-m2, C08-w6-m2, C11-w6-m3 - the last two only once per quick
+run; a failing dump write -> C18: C09-w3-m1, -> C13: C09-w6-m3; a reused Prog
+-> C09: C14-w6-m2; these were written "against" a property
 whose workload has no such dimension).
 Misses when first tried: 3 in wave 1, 13 in wave 2, 18 in wave 3 (hard mode),
-4 in wave 4, 6 in wave 5 - and one wave-4 change (an endless diagnostic loop in the parser)
+4 in wave 4, 6 in wave 5, about 12 in wave 6 (most answered before the first
+trial, on reading the agents' descriptions) - and one wave-4 change (an endless diagnostic loop in the parser)
 made the check run for over an hour before the supervisor was given a bound
 on worker deaths (section 12);
 for 3 more (C19 wave 1) the workload was widened on reading the agent's
@@ -115,6 +120,19 @@ The strengthenings, in one list:
   (bad block name, malformed literal, duplicate variable, unknown name, bad
   selector); program names of 65 535..70 000 bytes; a target with five tagged
   fields; stack-overflow programs under all 8 observer settings.
+* Wave 6 added: injected read errors that wrap io.EOF; UnmarshalFile with
+  useless targets (nil, a struct by value, an int); the invariant
+  `read-outlives-call` (no Read of the input is pending at, or begins after,
+  the return); one option slice with spare capacity shared by concurrent
+  callers; a never-executed shared Prog executed by all callers at once; a
+  file-like reader (Read, Close, Name) for LoadProg; two corpus files whose
+  positions count differs from the code length; nothing on standard input
+  (/dev/null), repeated flags and single-line sources for the CLI; programs at
+  the compiler's limits and invalid-UTF-8 escapes in C09; binds of a missing
+  type with every selector; lexical units of up to 70 000 bytes in C07;
+  Execute with writers of its own followed by a plain Execute in C16; the
+  runtime's "all goroutines are asleep" report attributed to bcl when a bcl
+  frame is what is blocked.
 * C19: programs with 236-330 locals; strings up to 4097 bytes; Execute given
   writers of its own; a failing output writer under all 8 settings; runs of
   more than 65 536 instructions.
@@ -130,10 +148,11 @@ report the change.
 | change | checks that report it |
 |--------|-----------------------|
 """ + "\n".join(cross) + "\n"
-s=open('/verif/DESIGN.md').read()
+DESIGN=os.path.dirname(os.path.abspath(__file__))+'/../DESIGN.md'
+s=open(DESIGN).read()
 i=s.find('## 13. Sensitivity')
 if i>=0:
     s=s[:i]
 s=s.rstrip('\n')+"\n\n\n"+sec
-open('/verif/DESIGN.md','w').write(s)
+open(DESIGN,'w').write(s)
 print("section 13 written:",len(rows),"rows")
